@@ -10,6 +10,11 @@ Model of the response side of `twisted/web/http.py` and `twisted/web/http_header
 * `http.Request.setResponseCode / setHeader / addCookie / write / finish`        → `step`
 * `http.HTTPChannel.writeHeaders / write / writeSequence / checkPersistence / requestDone`
   (as far as they decide the bytes written and whether the connection is closed) → `writeHeaders`, `init`
+* `http.HTTPChannel.headerReceived` (value stripped of SP/HTAB) + the token test of `checkPersistence` on the
+  request's `Connection` header                                                   → `stripBlank`, `connClose`, `initConn`
+* several requests on one persistent connection: `HTTPChannel.allHeadersReceived` builds a NEW `Request` (new `Headers`,
+  cookies, code) for each, so each response is `run (initConn …)` of its own script — the driver's `seq` runs them so;
+  `_nameEncoder._canonicalHeaderCache` is semantically transparent (`encodeName` has no state)
 * `http.toChunk` is taken from `TwistedModel.Http.Chunked`.
 
 `bytes.splitlines()` breaks at `\n`, `\r` and `\r\n` and yields no final empty piece when the
@@ -197,6 +202,32 @@ def init (proto11 head connClose : Bool) : Req :=
     headers := if proto11 && connClose then [(bs "Connection", [bs "close"])] else [],
     cookies := [], started := false, chunked := false, muted := false, finished := false,
     out := [], closed := false }
+
+/-! ### the request's own `Connection` header (`HTTPChannel.headerReceived`, `checkPersistence`) -/
+
+/-- `data.split(b" ")` -/
+def splitSp : Bytes → List Bytes
+  | [] => [[]]
+  | c :: rest =>
+    if c = SP then [] :: splitSp rest
+    else match splitSp rest with
+      | w :: ws => (c :: w) :: ws
+      | [] => [[c]]
+
+def isBlank (c : UInt8) : Bool := c = SP || c = 9
+
+/-- `data.strip(b" \t")`: how `headerReceived` stores the value of a request header -/
+def stripBlank (b : Bytes) : Bytes := ((b.dropWhile isBlank).reverse.dropWhile isBlank).reverse
+
+/-- `checkPersistence`: `b"close" in [t.lower() for t in connection[0].split(b" ")]` (the value of the
+    first `Connection` line of the request; elements are separated by single spaces, a comma stays
+    part of its element) -/
+def connClose (value : Bytes) : Bool := (splitSp (stripBlank value)).any fun t => t.map lower = bs "close"
+
+/-- the request as `process()` sees it when the request carried `Connection: <value>`
+    (`none`: no such header) -/
+def initConn (proto11 head : Bool) (conn : Option Bytes) : Req :=
+  init proto11 head (match conn with | none => false | some v => connClose v)
 
 /-- `http.RESPONSES` -/
 def responses : List (Nat × String) :=
